@@ -733,7 +733,8 @@ Definition v3_sem (fuel : nat) (y : yaml) : option config :=
    Beyond "the barectf 2 reading is defined" (which implies the shape constraints of schemas/config/2),
    each clause below is a hypothesis the equivalence NEEDS and the property text does not grant; each
    one has a `_refuted` theorem with a witness in V2Proofs.v (DESIGN.md 4.2).
-     H1  no floating point field type carries `byte-order`                       (w_real_byte_order)
+     (H1, "no floating point field type carries `byte-order`", was needed until fix 3990a98 of /repo; the
+      witness w_real_byte_order is now a regression input that must behave like its twin)
      H2  no structure has `fields: null`; a header structure that is given has `fields`  (w_fields_null)
      H3  no `packet_seq_num` member                                              (w_seq_num)
      H4  every timestamp member of a stream is an integer mapped to the stream's one clock  (w_mixed_clocks)
@@ -748,8 +749,7 @@ Fixpoint ft_conv_ok (fuel : nat) (y : yaml) : bool :=
       | YMap l =>
           match class_of l with
           | Some c =>
-              if one_of c ["flt"; "float"; "floating-point"] then negb (mem "byte-order" (keys l))
-              else if String.eqb c "array" then
+              if String.eqb c "array" then
                 match lookup "element-type" l with Some e => ft_conv_ok fuel' e | None => false end
               else if one_of c ["struct"; "structure"] then
                 match lookup "fields" l with
